@@ -21,7 +21,16 @@ type pnode struct {
 	end   string // "", "revert", "invalid", "burn"
 	addr  common.Address
 	fund  *big.Int
+	sdTo  common.Address
+	sdSelf bool
 }
+
+// genPokes adds plain value transfers to a called child before/after the call (the same
+// contract then has changes both inside and outside a possibly failing frame).
+var genPokes = false
+
+// genSelfDestruct enables SELFDESTRUCT frame endings (used by the C05 program family).
+var genSelfDestruct = false
 
 type pstep struct {
 	kind  string // sstore-set | sstore-clear | log | send-eoa | send-fresh | call | burn
@@ -32,6 +41,9 @@ type pstep struct {
 	fail  evmasm.OnFail
 	child *pnode
 	to    common.Address
+	// value transfers (empty calldata: the child only receives) to the same child before / after the call
+	pokeBefore, pokeAfter *big.Int
+	pokeTarget            *pnode // a descendant of child (nil = the child itself)
 }
 
 func (p *pnode) shape() string {
@@ -47,7 +59,14 @@ func (p *pnode) shape() string {
 			if st.fail == evmasm.Bubble {
 				f = "!"
 			}
-			s += fmt.Sprintf("%s%s%s%s ", st.call, g, f, st.child.shape())
+			pk := ""
+			if st.pokeBefore != nil {
+				pk += "$<"
+			}
+			if st.pokeAfter != nil {
+				pk += "$>"
+			}
+			s += fmt.Sprintf("%s%s%s%s%s ", pk, st.call, g, f, st.child.shape())
 		default:
 			s += st.kind + " "
 		}
@@ -87,18 +106,42 @@ func genProg(rng *rand.Rand, depth int, eoas []common.Address, fresh func() comm
 			if rng.Intn(4) == 0 {
 				st.gas = uint64(2000 + rng.Intn(60000))
 			}
+			if genPokes && rng.Intn(3) == 0 {
+				st.pokeBefore = big.NewInt(int64(rng.Intn(9) + 1))
+			}
+			if genPokes && rng.Intn(3) == 0 {
+				st.pokeAfter = big.NewInt(int64(rng.Intn(9) + 1))
+			}
+			if genPokes {
+				if ds := st.child.descendants(); len(ds) > 0 && rng.Intn(2) == 0 {
+					st.pokeTarget = ds[rng.Intn(len(ds))]
+				}
+			}
 			p.plan = append(p.plan, st)
 		default:
 			p.plan = append(p.plan, pstep{kind: "log"})
 		}
 	}
-	switch rng.Intn(8) {
+	endPick := rng.Intn(9)
+	if genSelfDestruct { // the failing-frame family: more reverts and self-destructs
+		endPick = []int{0, 0, 1, 2, 3, 3, 3, 8, 8, 8}[rng.Intn(10)]
+	}
+	switch endPick {
 	case 0:
 		p.end = "revert"
 	case 1:
 		p.end = "invalid"
 	case 2:
 		p.end = "burn"
+	case 3:
+		if genSelfDestruct {
+			p.end = "selfdestruct"
+			p.sdTo = eoas[rng.Intn(len(eoas))]
+			if rng.Intn(3) == 0 {
+				p.sdTo = common.Address{} // filled with the contract's own address at deploy time
+				p.sdSelf = true
+			}
+		}
 	}
 	return p
 }
@@ -115,7 +158,7 @@ func deployProg(n *vn.Node, from vn.Account, p *pnode) ([]common.Address, error)
 			all = append(all, sub...)
 		}
 	}
-	p.steps = nil
+	p.steps = []evmasm.Step{evmasm.Guard{}}
 	for _, st := range p.plan {
 		switch st.kind {
 		case "sstore-set":
@@ -127,7 +170,17 @@ func deployProg(n *vn.Node, from vn.Account, p *pnode) ([]common.Address, error)
 		case "send-eoa", "send-fresh":
 			p.steps = append(p.steps, evmasm.CallStep{Kind: evmasm.Call, To: st.to, Value: st.val, Fail: evmasm.Ignore})
 		case "call":
-			p.steps = append(p.steps, evmasm.CallStep{Kind: st.call, To: st.child.addr, Value: st.val, Gas: st.gas, Fail: st.fail})
+			pt := st.child
+			if st.pokeTarget != nil {
+				pt = st.pokeTarget
+			}
+			if st.pokeBefore != nil {
+				p.steps = append(p.steps, evmasm.CallStep{Kind: evmasm.Call, To: pt.addr, Value: st.pokeBefore, Fail: evmasm.Ignore})
+			}
+			p.steps = append(p.steps, evmasm.CallStep{Kind: st.call, To: st.child.addr, Value: st.val, Gas: st.gas, Fail: st.fail, Data: []byte{1}})
+			if st.pokeAfter != nil {
+				p.steps = append(p.steps, evmasm.CallStep{Kind: evmasm.Call, To: pt.addr, Value: st.pokeAfter, Fail: evmasm.Ignore})
+			}
 		}
 	}
 	switch p.end {
@@ -137,6 +190,12 @@ func deployProg(n *vn.Node, from vn.Account, p *pnode) ([]common.Address, error)
 		p.steps = append(p.steps, evmasm.Invalid{})
 	case "burn":
 		p.steps = append(p.steps, evmasm.BurnGas{Loops: 1 << 40})
+	case "selfdestruct":
+		to := p.sdTo
+		if p.sdSelf {
+			to = vn.CreateAddress(from.Eth, n.EthNonce(from.Eth))
+		}
+		p.steps = append(p.steps, evmasm.SelfDestruct{To: to})
 	}
 	addr, res := n.Deploy(from, evmasm.InitCode(p.pre, p.steps), p.fund)
 	if res.Code != 0 {
@@ -151,12 +210,52 @@ func deployProg(n *vn.Node, from vn.Account, p *pnode) ([]common.Address, error)
 
 func (p *pnode) targets() []common.Address {
 	var out []common.Address
+	if p.end == "selfdestruct" && !p.sdSelf {
+		out = append(out, p.sdTo) // the beneficiary must be part of the mirrored pre-state
+	}
 	for _, st := range p.plan {
 		switch st.kind {
 		case "send-eoa", "send-fresh":
 			out = append(out, st.to)
 		case "call":
 			out = append(out, st.child.targets()...)
+		}
+	}
+	return out
+}
+
+// addrMap lists every contract of the tree with its own (non-recursive) plan.
+func (p *pnode) addrMap() map[string]string {
+	out := map[string]string{}
+	var walk func(q *pnode, path string)
+	walk = func(q *pnode, path string) {
+		s := ""
+		for _, st := range q.plan {
+			if st.kind == "call" {
+				s += fmt.Sprintf("%s->%s ", st.call, st.child.addr.Hex()[:8])
+			} else {
+				s += st.kind + " "
+			}
+		}
+		out[q.addr.Hex()] = path + ": " + s + "end=" + q.end
+		i := 0
+		for _, st := range q.plan {
+			if st.kind == "call" {
+				walk(st.child, fmt.Sprintf("%s.%d", path, i))
+				i++
+			}
+		}
+	}
+	walk(p, "root")
+	return out
+}
+
+func (p *pnode) descendants() []*pnode {
+	var out []*pnode
+	for _, st := range p.plan {
+		if st.kind == "call" {
+			out = append(out, st.child)
+			out = append(out, st.child.descendants()...)
 		}
 	}
 	return out
